@@ -471,6 +471,31 @@ func getExpiration(ctx *Context, fact map[string]interface{}) (int64, error) {
 	return 0, nil
 }
 
+// deleteWithNames reports whether the given fact literally lists the
+// given id in its 'deleteWith' property.
+//
+// The states find dependents with a pattern search for the id.  An id
+// that looks like a variable (say "?" or "?x") makes that pattern
+// match every fact that has any 'deleteWith', so the search results
+// have to be checked.
+func deleteWithNames(fact map[string]interface{}, id string) bool {
+	switch vv := fact[KW_DeleteWith].(type) {
+	case []interface{}:
+		for _, x := range vv {
+			if s, ok := x.(string); ok && s == id {
+				return true
+			}
+		}
+	case []string:
+		for _, s := range vv {
+			if s == id {
+				return true
+			}
+		}
+	}
+	return false
+}
+
 func notAfter(ctx *Context, secs int64, then int64) bool {
 	if secs == 0 {
 		return false
